@@ -29,7 +29,7 @@ where
 impl SkipEl for f64 {
     const QTY: Ty = Ty::N64;
     fn val(&self) -> Option<Val> {
-        if self.is_nan() {
+        if self.is_missing() {
             None
         } else {
             Some(Val::F(*self))
@@ -39,7 +39,7 @@ impl SkipEl for f64 {
 impl SkipEl for f32 {
     const QTY: Ty = Ty::N32;
     fn val(&self) -> Option<Val> {
-        if self.is_nan() {
+        if self.is_missing() {
             None
         } else {
             Some(Val::F(*self as f64))
@@ -213,7 +213,7 @@ where
         Err(p) => fail!("panic", "min_skipnan/max_skipnan panicked: {}", p),
     };
     if present.is_empty() {
-        ensure!(mn.is_nan() && mx.is_nan(), "wrong-value", "no non-missing element, but min_skipnan = {:?}, max_skipnan = {:?} (expected the missing value)", mn, mx);
+        ensure!(mn.is_missing() && mx.is_missing(), "wrong-value", "no non-missing element, but min_skipnan = {:?}, max_skipnan = {:?} (expected the missing value)", mn, mx);
     } else {
         let mut s = present.clone();
         sort_vals(&mut s);
@@ -254,7 +254,7 @@ where
     }
     // --- folds and visits
     {
-        let want_ms = multiset(data.iter().filter(|d| !d.is_nan()).cloned());
+        let want_ms = multiset(data.iter().filter(|d| !d.is_missing()).cloned());
         let mut seen: Vec<(u8, u128)> = vec![];
         let init_marker = 7usize;
         let r = v.fold_skipnan(init_marker, |acc, nn| {
@@ -287,7 +287,7 @@ where
             }
         }
         pairs.sort_unstable();
-        let want_pairs: Vec<(usize, (u8, u128))> = data.iter().enumerate().filter(|(_, d)| !d.is_nan()).map(|(i, d)| (i, d.bits())).collect();
+        let want_pairs: Vec<(usize, (u8, u128))> = data.iter().enumerate().filter(|(_, d)| !d.is_missing()).map(|(i, d)| (i, d.bits())).collect();
         ensure!(pairs == want_pairs, "wrong-value", "indexed_fold_skipnan saw (flat index, value) pairs {:?}, expected {:?}", pairs, want_pairs);
         // per-axis fold
         let folded = v.fold_axis_skipnan(Axis(c.axis), Vec::<(u8, u128)>::new(), |acc, nn| {
@@ -301,7 +301,7 @@ where
         for (l, (got, idx)) in folded.iter().zip(&lanes_idx).enumerate() {
             let mut g = got.clone();
             g.sort_unstable();
-            let w = multiset(idx.iter().filter(|&&i| !data[i].is_nan()).map(|&i| data[i].clone()));
+            let w = multiset(idx.iter().filter(|&&i| !data[i].is_missing()).map(|&i| data[i].clone()));
             ensure!(g == w, "wrong-value", "fold_axis_skipnan lane {} saw {:?}, the lane's non-missing data is {:?}", l, g, w);
         }
     }
@@ -329,7 +329,7 @@ where
         ensure!(lens.shape() == &want_shape[..], "shape", "map_axis_skipnan_mut result has shape {:?}, expected {:?}", lens.shape(), want_shape);
         // lanes are visited in arbitrary order: compare as multisets of lanes, and the
         // returned lengths by position
-        let mut want_lanes: Vec<Vec<(u8, u128)>> = lanes_idx.iter().map(|idx| multiset(idx.iter().filter(|&&i| !data[i].is_nan()).map(|&i| data[i].clone()))).collect();
+        let mut want_lanes: Vec<Vec<(u8, u128)>> = lanes_idx.iter().map(|idx| multiset(idx.iter().filter(|&&i| !data[i].is_missing()).map(|&i| data[i].clone()))).collect();
         for (l, (got_len, w)) in lens.iter().zip(&want_lanes).enumerate() {
             ensure!(*got_len == w.len(), "wrong-value", "map_axis_skipnan_mut handed a lane of {} elements to the closure for lane {}, which has {} non-missing elements", got_len, l, w.len());
         }
@@ -364,7 +364,7 @@ where
         ensure!(res.shape() == &want_shape[..], "shape", "quantile_axis_skipnan_mut result has shape {:?}, expected {:?}", res.shape(), want_shape);
         for (l, (got, sorted)) in res.iter().zip(&lane_sorted).enumerate() {
             if sorted.is_empty() {
-                ensure!(got.is_nan(), "wrong-value", "lane {} has no non-missing element but its skip-NaN quantile is {:?}", l, got);
+                ensure!(got.is_missing(), "wrong-value", "lane {} has no non-missing element but its skip-NaN quantile is {:?}", l, got);
             } else {
                 let r = match got.val() {
                     Some(r) => r,
@@ -431,13 +431,24 @@ pub fn skip_strategy(max_lane: usize) -> impl Strategy<Value = SkipCase> {
                 1 => Just((0..total).map(|i| i % 2 == 0).collect::<Vec<bool>>()),
             ];
             let vals = prop_oneof![
-                proptest::collection::vec(0i16..4, total),
-                proptest::collection::vec(-100i16..100, total),
-                proptest::collection::vec(any::<i16>(), total),
+                3 => proptest::collection::vec(0i16..4, total),
+                3 => proptest::collection::vec(-100i16..100, total),
+                2 => proptest::collection::vec(any::<i16>(), total),
+                // +-infinity (97/-97) and -0.0 (96) for the float types
+                2 => proptest::collection::vec(prop_oneof![6 => -5i16..6, 1 => Just(97i16), 1 => Just(-97i16), 1 => Just(96i16), 1 => Just(0i16)], total),
             ];
             (Just((ty, shape, axis, layout)), vals, mask, qspec_strategy(), strat_strategy(), pivots_strategy())
         })
-        .prop_map(|((ty, shape, axis, layout), vals, mask, q, strat, pivots)| SkipCase { ty, shape, layout, axis, vals, mask, q, strat, pivots })
+        .prop_map(|((ty, mut shape, axis, layout), mut vals, mut mask, q, strat, pivots)| {
+            // occasionally a zero-length axis other than the reduced one
+            if shape.len() >= 2 && vals.len() % 23 == 0 {
+                let k = (axis + 1) % shape.len();
+                shape[k] = 0;
+                vals.clear();
+                mask.clear();
+            }
+            SkipCase { ty, shape, layout, axis, vals, mask, q, strat, pivots }
+        })
 }
 
 fn shape_strategy_local(nd: usize, max_axis: usize, max_total: usize) -> BoxedStrategy<Vec<usize>> {
@@ -474,7 +485,7 @@ pub fn check_lanes_t<T: NanEl>(c: &LanesCase) -> CheckResult {
             if n >= 2 && (addrs[1] - addrs[0]) != size {
                 strided_lane = true;
             }
-            let before = multiset(lane.iter().filter(|d| !d.is_nan()).cloned());
+            let before = multiset(lane.iter().filter(|d| !d.is_missing()).cloned());
             let (ptr, len, st) = {
                 let r = T::remove_nan_mut(lane);
                 (r.as_ptr() as isize, r.len(), if r.len() > 1 { r.stride_of(Axis(0)) } else { 0 })
@@ -497,7 +508,7 @@ pub fn check_lanes_t<T: NanEl>(c: &LanesCase) -> CheckResult {
             }
             // safe to read now: all addresses are elements of the lane
             let got: Vec<T> = got_addrs.iter().map(|&a| unsafe { (*(a as *const T)).clone() }).collect();
-            if got.iter().any(|g| g.is_nan()) || multiset(got.iter().cloned()) != before {
+            if got.iter().any(|g| g.is_missing()) || multiset(got.iter().cloned()) != before {
                 failure = Some(Failure::new("wrong-value", format!("lane {} along axis {}: stripped view holds {:?}, the lane's non-missing elements are {:?}", l, c.axis, got, before)));
                 break;
             }
